@@ -19,7 +19,7 @@ META = dict(
     text="All combinations of configuration count (1-3), displacement spec (scalar / per-element / anisotropic), directions, seeds, ensemble_mean, "
          "builder, detector, exit planes, scan and evaluation mode are simulated and every member is compared with an independent eager simulation "
          "of that single displaced configuration; the configurations themselves are compared across every composition-chunking, lazy/eager "
-         "partitioning, single-seed regeneration and all processing orders.",
+         "partitioning, single-seed regeneration and all processing orders. A breadth-first search over use histories (7 kinds of use, depth 3 / 4, never merged) of one ensemble + potential object pair requires every use to give what a fresh object gives.",
     note="Bound: <= 3 configurations, 2 atoms, 16x12 grid, 2 slices. Tolerance 2e-5 (float32, different batch shapes). The reference uses abTEM's own "
          "Potential on the displaced atoms, so only the ensemble mechanism is under test.",
 )
